@@ -1379,6 +1379,229 @@ impl<T> Trace<T> {
     //@| outline `routes.extend(Trace::get_routes_from_traces(&trace.children));` => `ext_routes(&mut routes, Trace::get_routes_from_traces(&trace.children));`
 }
 
+// ================================================================ host layer trace (C17)
+// the explain trace of the regex tree (unit tree proves: the values listed under MATCHED trace nodes are exactly what find returns)
+//@@ rename Trace TreeTrace
+//@@ item src/regex_radix_tree/trace.rs :: struct Trace
+//@@ unrename Trace
+pub open spec fn tt_has<V>(t: TreeTrace<V>, v: V) -> bool
+    decreases t
+{ (t.matched && exists|i: int| 0 <= i < t.values@.len() && *#[trigger] t.values@[i] == v) || tt_has_children(t.children@, t.children@.len() as int, v) }
+pub open spec fn tt_has_children<V>(cs: Seq<TreeTrace<V>>, k: int, v: V) -> bool
+    decreases cs, k
+{ if k <= 0 || k > cs.len() { false } else { tt_has_children(cs, k - 1, v) || tt_has(cs[k - 1], v) } }
+pub proof fn lemma_tt_children<V>(cs: Seq<TreeTrace<V>>, k: int, v: V)
+    requires 0 <= k <= cs.len(),
+    ensures tt_has_children(cs, k, v) <==> exists|j: int| 0 <= j < k && tt_has(#[trigger] cs[j], v),
+    decreases k,
+{
+    if k > 0 {
+        lemma_tt_children(cs, k - 1, v);
+        if tt_has_children(cs, k - 1, v) { let j = choose|j: int| 0 <= j < k - 1 && tt_has(#[trigger] cs[j], v); assert(0 <= j < k && tt_has(cs[j], v)); }
+        if exists|j: int| 0 <= j < k && tt_has(#[trigger] cs[j], v) { let j = choose|j: int| 0 <= j < k && tt_has(#[trigger] cs[j], v); if j < k - 1 { assert(0 <= j < k - 1 && tt_has(cs[j], v)); } }
+    }
+}
+impl<V> UniqueRegexTreeMap<V> {
+    // ASSUMED here, PROVED in unit tree (RegexTreeMap/UniqueRegexTreeMap::trace and ::find both equal the linear scan)
+    #[verifier::external_body]
+    pub fn trace<'a>(&'a self, haystack: &str) -> (r: TreeTrace<'a, V>) ensures forall|v: V| #[trigger] tt_has(r, v) <==> self.found(haystack@).contains(v) { unimplemented!() }
+}
+pub proof fn lemma_forest_concat<T>(a: Seq<Trace<T>>, b: Seq<Trace<T>>)
+    ensures forest_routes(a + b, (a + b).len() as int) == forest_routes(a, a.len() as int).add(forest_routes(b, b.len() as int)),
+    decreases b.len(),
+{
+    if b.len() == 0 {
+        assert(a + b =~= a);
+        assert(forest_routes(a, a.len() as int).add(Multiset::empty()) =~= forest_routes(a, a.len() as int));
+    } else {
+        let b1 = b.drop_last(); let t = b.last();
+        lemma_forest_concat(a, b1);
+        assert(a + b =~= (a + b1).push(t)); assert(b =~= b1.push(t));
+        lemma_forest_push(a + b1, t); lemma_forest_push(b1, t);
+        assert(forest_routes(a, a.len() as int).add(forest_routes(b1, b1.len() as int)).add(trace_routes(t)) =~= forest_routes(a, a.len() as int).add(forest_routes(b1, b1.len() as int).add(trace_routes(t))));
+    }
+}
+// `traces.extend(x)` through a VERIFIED wrapper: the routes of the concatenated forest
+pub fn ext_traces<T>(traces: &mut Vec<Trace<T>>, other: Vec<Trace<T>>)
+    ensures final(traces)@ == old(traces)@ + other@,
+        forest_routes(final(traces)@, final(traces)@.len() as int) == forest_routes(old(traces)@, old(traces)@.len() as int).add(forest_routes(other@, other@.len() as int)),
+{
+    broadcast use axiom_iter_seq_vec;
+    let ghost a = traces@; let ghost b = other@;
+    /* verbatim: children.extend(matcher.trace(request)); | traces.extend(self.any_host.trace(request)); */
+    traces.extend(other);
+    proof { lemma_forest_concat(a, b); }
+}
+//@@ rename IpMatcher SubIp
+pub open spec fn tt_yields<T>(t: TreeTrace<SubIp<T>>, request: Request, x: RouteRef<T>) -> bool { exists|v: SubIp<T>| tt_has(t, v) && (#[trigger] v.answer(request)).count(x) > 0 }
+pub open spec fn kids_yield<T>(cs: Seq<TreeTrace<SubIp<T>>>, k: int, request: Request, x: RouteRef<T>) -> bool { exists|j: int| 0 <= j < k && tt_yields(#[trigger] cs[j], request, x) }
+pub open spec fn vals_yield<T>(vs: Seq<&SubIp<T>>, k: int, request: Request, x: RouteRef<T>) -> bool { exists|i: int| 0 <= i < k && ((*#[trigger] vs[i]).answer(request)).count(x) > 0 }
+pub proof fn lemma_tt_yields<T>(t: TreeTrace<SubIp<T>>, request: Request, x: RouteRef<T>)
+    ensures tt_yields(t, request, x) <==> ((t.matched && vals_yield(t.values@, t.values@.len() as int, request, x)) || kids_yield(t.children@, t.children@.len() as int, request, x)),
+{
+    let cs = t.children@; let n = cs.len() as int; let vs = t.values@;
+    if tt_yields(t, request, x) {
+        let v = choose|v: SubIp<T>| tt_has(t, v) && (#[trigger] v.answer(request)).count(x) > 0;
+        if t.matched && exists|i: int| 0 <= i < vs.len() && *#[trigger] vs[i] == v { let i = choose|i: int| 0 <= i < vs.len() && *#[trigger] vs[i] == v; assert((*vs[i]).answer(request).count(x) > 0); }
+        else { lemma_tt_children(cs, n, v); let j = choose|j: int| 0 <= j < n && tt_has(#[trigger] cs[j], v); assert(tt_yields(cs[j], request, x)); }
+    }
+    if t.matched && vals_yield(vs, vs.len() as int, request, x) { let i = choose|i: int| 0 <= i < vs.len() && ((*#[trigger] vs[i]).answer(request)).count(x) > 0; assert(tt_has(t, *vs[i])); }
+    if kids_yield(cs, n, request, x) {
+        let j = choose|j: int| 0 <= j < n && tt_yields(#[trigger] cs[j], request, x);
+        let v = choose|v: SubIp<T>| tt_has(cs[j], v) && (#[trigger] v.answer(request)).count(x) > 0;
+        lemma_tt_children(cs, n, v); assert(tt_has(t, v));
+    }
+}
+// conversion of a tree trace: the routes below the result are those the buckets under MATCHED tree nodes answer
+//@@ fn src/router/request_matcher/host.rs :: fn tree_trace_to_trace -> r
+//@| ensures r.matched == tree_trace.matched, r.count == tree_trace.count,
+//@|     forall|x: RouteRef<T>| #[trigger] trace_routes(r).count(x) > 0 <==> tt_yields(tree_trace, *request, x),
+//@| decreases tree_trace,
+//@| outline `children.extend(matcher.trace(request));` => `ext_traces(&mut children, matcher.trace(request));`
+//@| forlabel 0: it
+//@| forlabel 1: it
+//@| attr #[verifier::loop_isolation(false)]
+//@| entry let ghost tt0 = tree_trace; let ghost tc = tree_trace.children@; let ghost tv = tree_trace.values@; proof { lemma_forest_empty::<T>(); }
+//@| loop 0: invariant iter_ok(it.history@, it.index@, it.snapshot@.remaining(), tc),
+//@|         forall|x: RouteRef<T>| #[trigger] forest_routes(children@, children@.len() as int).count(x) > 0 <==> kids_yield(tc, it.index@ as int, *request, x),
+//@| loophead 0: let ghost c0 = children@; let ghost k = it.index@ as int; proof { assert(child == tc[k]); }
+//@| looptail 0: proof {
+//@|     let t = children@.last(); assert(children@ =~= c0.push(t)); lemma_forest_push(c0, t);
+//@|     assert forall|x: RouteRef<T>| #[trigger] forest_routes(children@, children@.len() as int).count(x) > 0 <==> kids_yield(tc, k + 1, *request, x) by {
+//@|         if kids_yield(tc, k + 1, *request, x) { let j = choose|j: int| 0 <= j < k + 1 && tt_yields(#[trigger] tc[j], *request, x); if j < k { assert(kids_yield(tc, k, *request, x)); } }
+//@|         if kids_yield(tc, k, *request, x) { let j = choose|j: int| 0 <= j < k && tt_yields(#[trigger] tc[j], *request, x); assert(0 <= j < k + 1 && tt_yields(tc[j], *request, x)); }
+//@|         if tt_yields(tc[k], *request, x) { assert(0 <= k < k + 1 && tt_yields(tc[k], *request, x)); }
+//@|     }
+//@| }
+//@| loop 1: invariant iter_ok(it.history@, it.index@, it.snapshot@.remaining(), tv),
+//@|         forall|x: RouteRef<T>| #[trigger] forest_routes(children@, children@.len() as int).count(x) > 0 <==> (kids_yield(tc, tc.len() as int, *request, x) || (tt0.matched && vals_yield(tv, it.index@ as int, *request, x))),
+//@| loophead 1: let ghost c1 = children@; let ghost k = it.index@ as int; proof { assert(matcher == tv[k]); }
+//@| looptail 1: proof {
+//@|     assert forall|x: RouteRef<T>| #[trigger] forest_routes(children@, children@.len() as int).count(x) > 0 <==> (kids_yield(tc, tc.len() as int, *request, x) || (tt0.matched && vals_yield(tv, k + 1, *request, x))) by {
+//@|         if vals_yield(tv, k + 1, *request, x) { let i = choose|i: int| 0 <= i < k + 1 && ((*#[trigger] tv[i]).answer(*request)).count(x) > 0; if i < k { assert(vals_yield(tv, k, *request, x)); } }
+//@|         if vals_yield(tv, k, *request, x) { let i = choose|i: int| 0 <= i < k && ((*#[trigger] tv[i]).answer(*request)).count(x) > 0; assert(0 <= i < k + 1 && (*tv[i]).answer(*request).count(x) > 0); }
+//@|         if (*tv[k]).answer(*request).count(x) > 0 { assert(0 <= k < k + 1 && (*tv[k]).answer(*request).count(x) > 0); }
+//@|     }
+//@| }
+//@| exit proof { lemma_trace_node(vf_ret); assert forall|x: RouteRef<T>| #[trigger] trace_routes(vf_ret).count(x) > 0 <==> tt_yields(tt0, *request, x) by { lemma_tt_yields(tt0, *request, x); } }
+
+pub type HstItem<'a, T> = (&'a String, &'a SubIp<T>);
+pub open spec fn hst_contrib<T>(rem: Seq<HstItem<T>>, n: int, m: Seq<char>, request: Request, x: RouteRef<T>) -> bool {
+    exists|i: int| 0 <= i < n && (*#[trigger] rem[i].0)@ == m && (*rem[i].1).answer(request).count(x) > 0
+}
+pub proof fn lemma_sum_member<T>(fs: Seq<SubIp<T>>, request: Request, k: int, x: RouteRef<T>)
+    requires 0 <= k <= fs.len(),
+    ensures sum_answers(fs, request, k).count(x) > 0 <==> exists|i: int| 0 <= i < k && (#[trigger] fs[i]).answer(request).count(x) > 0,
+    decreases k,
+{
+    if k > 0 {
+        lemma_sum_member(fs, request, k - 1, x);
+        if sum_answers(fs, request, k - 1).count(x) > 0 { let i = choose|i: int| 0 <= i < k - 1 && (#[trigger] fs[i]).answer(request).count(x) > 0; assert(0 <= i < k && fs[i].answer(request).count(x) > 0); }
+        if exists|i: int| 0 <= i < k && (#[trigger] fs[i]).answer(request).count(x) > 0 { let i = choose|i: int| 0 <= i < k && (#[trigger] fs[i]).answer(request).count(x) > 0; if i < k - 1 { assert(0 <= i < k - 1 && fs[i].answer(request).count(x) > 0); } }
+    }
+}
+pub proof fn lemma_ms_len0<A>(m: Multiset<A>)
+    ensures m.len() == 0 <==> (forall|x: A| #[trigger] m.count(x) == 0),
+{
+    if m.len() > 0 { let x = m.choose(); assert(m.count(x) > 0); }
+    if m.len() == 0 { assert forall|x: A| #[trigger] m.count(x) == 0 by { if m.count(x) > 0 { assert(m.contains(x)); assert(m.len() > 0); } } }
+}
+pub open spec fn host_specific<T>(m: HostMatcher<T>, request: Request) -> Multiset<RouteRef<T>> {
+    match req_host(request) {
+        Some(h) => sum_answers(m.regex_tree_rule.found(h), request, m.regex_tree_rule.found(h).len() as int).add(static_answer(m.static_hosts@, h, request)),
+        None => Multiset::empty(),
+    }
+}
+impl<T> HostMatcher<T> {
+    // C17, host layer: static host buckets (the one of the request's host contributes), the regex-host buckets through the tree trace, then the
+    // host-less rules under the any-host policy — decided on what has been traced so far, AFTER both kinds of host-specific rules
+    //@@ fn src/router/request_matcher/host.rs :: impl <T>HostMatcher<T> / fn trace -> r
+    //@| opt r5:0
+    //@| opt r6:0
+    //@| ensures same_members(forest_routes(r@, r@.len() as int), host_answer(*self, *request)),
+    //@| attr #[verifier::loop_isolation(false)]
+    //@| entry broadcast use vstd::seq_lib::group_to_multiset_ensures; broadcast use vstd::std_specs::hash::group_hash_axioms; broadcast use axiom_string_key_model; broadcast use axiom_borrow_str_contains; broadcast use axiom_borrow_str_maps;
+    //@|     proof { axiom_string_ext(); lit_empty(); lemma_forest_empty::<T>(); }
+    //@| after `let request_host = request.host().unwrap_or("");`: let ghost mm = self.static_hosts@; let ghost rm = request_host@; let ghost hsome = req_host(*request) is Some;
+    //@|     proof { assert(rm == match req_host(*request) { Some(s) => s, None => Seq::<char>::empty() }); }
+    //@| loop 0: invariant 0 <= vf_it0_idx <= vf_it0_rem0.len(), vf_it0.remaining() == vf_it0_rem0.skip(vf_it0_idx), vf_it0_rem0.len() == mm.len(),
+    //@|         forall|x: RouteRef<T>| #[trigger] forest_routes(traces@, traces@.len() as int).count(x) > 0 <==> (hsome && hst_contrib(vf_it0_rem0, vf_it0_idx, rm, *request, x)),
+    //@|     decreases mm.len() - vf_it0_idx,
+    //@| loophead 0: let ghost t0 = traces@; let ghost k = vf_it0_idx - 1; let ghost rem = vf_it0_rem0;
+    //@|     proof { assert(host == rem[k].0 && matcher == rem[k].1); }
+    //@| looptail 0: proof {
+    //@|     let t = traces@.last();
+    //@|     assert(traces@ =~= t0.push(t));
+    //@|     lemma_forest_push(t0, t); lemma_trace_node(t); lemma_forest_empty::<T>();
+    //@|     let cond = host@ == rm && hsome;
+    //@|     assert forall|x: RouteRef<T>| #[trigger] forest_routes(traces@, traces@.len() as int).count(x) > 0 <==> (hsome && hst_contrib(rem, k + 1, rm, *request, x)) by {
+    //@|         if cond { assert(trace_routes(t) == matcher.answer(*request)); } else { assert(trace_routes(t).count(x) == 0); }
+    //@|         if hst_contrib(rem, k + 1, rm, *request, x) { let i = choose|i: int| 0 <= i < k + 1 && (*#[trigger] rem[i].0)@ == rm && (*rem[i].1).answer(*request).count(x) > 0; if i < k { assert(hst_contrib(rem, k, rm, *request, x)); } }
+    //@|         if hst_contrib(rem, k, rm, *request, x) { let i = choose|i: int| 0 <= i < k && (*#[trigger] rem[i].0)@ == rm && (*rem[i].1).answer(*request).count(x) > 0; assert((*rem[i].0)@ == rm); }
+    //@|         if cond && matcher.answer(*request).count(x) > 0 { assert((*rem[k].0)@ == rm); }
+    //@|     }
+    //@| }
+    //@| loopend 0: proof {
+    //@|     let rem = vf_it0_rem0;
+    //@|     let sa = match req_host(*request) { Some(h) => static_answer(mm, h, *request), None => Multiset::empty() };
+    //@|     assert forall|x: RouteRef<T>| #[trigger] forest_routes(traces@, traces@.len() as int).count(x) > 0 <==> sa.count(x) > 0 by {
+    //@|         if hsome && hst_contrib(rem, rem.len() as int, rm, *request, x) {
+    //@|             let i = choose|i: int| 0 <= i < rem.len() && (*#[trigger] rem[i].0)@ == rm && (*rem[i].1).answer(*request).count(x) > 0;
+    //@|             let key = *rem[i].0;
+    //@|             assert(mm.contains_key(key) && mm[key] == *rem[i].1);
+    //@|             let key2 = choose|key2: String| key2@ == rm && mm.contains_key(key2);
+    //@|             assert(key2 == key);
+    //@|         }
+    //@|         if sa.count(x) > 0 {
+    //@|             let key = choose|key: String| key@ == rm && mm.contains_key(key);
+    //@|             let i = choose|i: int| 0 <= i < rem.len() && *rem[i].0 == key;
+    //@|             assert(mm[*rem[i].0] == *rem[i].1);
+    //@|             assert((*rem[i].0)@ == rm);
+    //@|         }
+    //@|     }
+    //@| }
+    //@| before `if let Some(host) = request.host() {`: let ghost t1 = traces@; let ghost mut t2 = traces@; let ghost mut t3 = traces@; let ghost sa = match req_host(*request) { Some(h) => static_answer(mm, h, *request), None => Multiset::<RouteRef<T>>::empty() };
+    //@| after `let trace = tree_trace_to_trace(host, tree_trace, request);`: let ghost tr = trace; let ghost fs = self.regex_tree_rule.found(host@);
+    //@|     proof { assert forall|x: RouteRef<T>| #[trigger] trace_routes(tr).count(x) > 0 <==> sum_answers(fs, *request, fs.len() as int).count(x) > 0 by {
+    //@|         lemma_sum_member(fs, *request, fs.len() as int, x);
+    //@|         if tt_yields(tree_trace, *request, x) { let v = choose|v: SubIp<T>| tt_has(tree_trace, v) && (#[trigger] v.answer(*request)).count(x) > 0; assert(fs.contains(v)); let i = choose|i: int| 0 <= i < fs.len() && fs[i] == v; assert(fs[i].answer(*request).count(x) > 0); }
+    //@|         if exists|i: int| 0 <= i < fs.len() && (#[trigger] fs[i]).answer(*request).count(x) > 0 { let i = choose|i: int| 0 <= i < fs.len() && (#[trigger] fs[i]).answer(*request).count(x) > 0; assert(fs.contains(fs[i])); assert(tt_has(tree_trace, fs[i])); }
+    //@|     } }
+    //@| after `traces.push(Trace::new(trace.matched, true, trace.count, vec![trace], TraceInfo::HostRegex));`: proof {
+    //@|         t2 = traces@;
+    //@|         let t = traces@.last(); assert(traces@ =~= t1.push(t)); lemma_forest_push(t1, t); lemma_trace_node(t);
+    //@|         assert(t.children@ =~= seq![tr]); lemma_forest_push(Seq::<Trace<T>>::empty(), tr); assert(Seq::<Trace<T>>::empty().push(tr) =~= seq![tr]);
+    //@|         assert(Multiset::<RouteRef<T>>::empty().add(trace_routes(tr)) =~= trace_routes(tr));
+    //@|         assert(trace_routes(t) == trace_routes(tr));
+    //@|         assert forall|x: RouteRef<T>| #[trigger] forest_routes(t2, t2.len() as int).count(x) > 0 <==> (sa.count(x) > 0 || sum_answers(fs, *request, fs.len() as int).count(x) > 0) by {}
+    //@|     }
+    //@| before `if self.always_match_any_host || Trace::<T>::get_routes_from_traces(&traces).is_empty() {`: let ghost sp = host_specific(*self, *request);
+    //@|     proof {
+    //@|         t3 = traces@;
+    //@|         if traces@.len() > t2.len() { let t = traces@.last(); assert(traces@ =~= t2.push(t)); lemma_forest_push(t2, t); lemma_trace_node(t); assert(forest_routes(traces@, traces@.len() as int) =~= forest_routes(t2, t2.len() as int)); }
+    //@|         assert(same_members(forest_routes(traces@, traces@.len() as int), sp));
+    //@|     }
+    //@| exit proof {
+    //@|     let sp = host_specific(*self, *request);
+    //@|     let f3 = forest_routes(t3, t3.len() as int);
+    //@|     let any = self.any_host.answer(*request);
+    //@|     lemma_ms_len0(sp); lemma_ms_len0(f3);
+    //@|     assert(f3.len() == 0 <==> sp.len() == 0) by { if f3.len() == 0 { assert forall|x: RouteRef<T>| #[trigger] sp.count(x) == 0 by { assert(f3.count(x) == 0); } } if sp.len() == 0 { assert forall|x: RouteRef<T>| #[trigger] f3.count(x) == 0 by { assert(sp.count(x) == 0); } } }
+    //@|     let fr = forest_routes(traces@, traces@.len() as int);
+    //@|     if self.always_match_any_host || sp.len() == 0 {
+    //@|         assert(fr == f3.add(any));
+    //@|         assert(host_answer(*self, *request) == sp.add(any));
+    //@|         assert forall|x: RouteRef<T>| #[trigger] fr.count(x) > 0 <==> #[trigger] host_answer(*self, *request).count(x) > 0 by { assert(f3.count(x) > 0 <==> sp.count(x) > 0); }
+    //@|     } else {
+    //@|         assert(traces@ == t3);
+    //@|         assert(host_answer(*self, *request) == sp);
+    //@|     }
+    //@| }
+    //@| outline `traces.extend(self.any_host.trace(request));` => `ext_traces(&mut traces, self.any_host.trace(request));`
+    //@| replace `host == request_host` => `*host == *request_host` :: `&String == &str` is defined by std as the comparison of the referents; Verus has no spec for the reference impl
+}
+//@@ unrename IpMatcher
+
 // ================================================================ Router entry points (C01 / C17 at the top level)
 // `Router::match_request` hands the request to the scheme layer as it is; `trace_request` first re-normalises it (statement C17: the trace
 // is compared with matching the NORMALISED request). Request::rebuild_with_config is under contract in unit req; here it is a named function.
